@@ -140,6 +140,76 @@ def _job(case):
             for b in pr2:
                 if pr2[b] != ini_probe[b]:
                     viol.append(("recovery of the interrupted pid disturbed another pid", {"pid": b}))
+            # the same promise after OTHER recovery histories on a fresh copy of the image: (a) the pids that share or
+            # neighbour the interrupted pid are deleted first (each is bound as before the crash, so each delete succeeds),
+            # (b) the pid is re-stored with OTHER content than the interrupted call offered
+            others = [b for b in fscen.PIDS if b != target and isinstance(ini_probe[b][0], tuple)]
+            other_content = "B" if cname != "B" else "A"
+            for script in ("bystanders deleted first", "other content"):
+                s2 = make_store_on(root, tree)
+                bad = None
+                if script == "bystanders deleted first":
+                    for b in others:
+                        db = O.run(s2, ("delete", b), c)
+                        if db[0] != "ok":
+                            bad = "delete_object of another (bound) pid raises %s" % db[0]
+                            break
+                if bad is None:
+                    d2 = O.run(s2, ("delete", target), c)
+                    if d2[0] not in ("ok", "PidRefsDoesNotExist"):
+                        bad = "delete_object(pid) raises %s" % d2[0]
+                if bad is None:
+                    cn = other_content if script == "other content" else cname
+                    st2 = O.run(s2, ("store", target, cn, None), c)
+                    if st2[0] != "ok":
+                        bad = "store_object(pid, data) after delete_object raises %s" % st2[0]
+                    else:
+                        back = O.run(s2, ("retrieve", target), c)
+                        if back[0] != "ok" or back[1] != c.inputs.data[cn]:
+                            bad = "pid not retrievable with the right bytes after re-storing (%s)" % back[0]
+                if bad is None and script == "other content":
+                    pr3 = fscen.probe(s2, c, [b for b in fscen.PIDS if b != target])
+                    if any(pr3[b] != ini_probe[b] for b in pr3):
+                        bad = "another pid was disturbed"
+                if bad is None:
+                    left = O.run(s2, ("delete", target), c)
+                    if left[0] != "ok":
+                        bad = "the re-stored pid cannot be deleted again (%s)" % left[0]
+                res["classes"].add((label, script, bad or "ok"))
+                if bad:
+                    viol.append(("recovery (%s): %s" % (script, bad), {}))
+        if target is not None and kind in ("store_meta", "delete_meta", "delete"):
+            # metadata recovery histories on fresh copies of the image: the pid's documents can be deleted, stored again and
+            # read back, in both orders, without touching any other pid's documents
+            for script in ("delete-all first", "store first"):
+                s2 = make_store_on(root, tree)
+                bad = None
+                steps = [("delete_meta", target, None), ("store_meta", target, None, "v1"), ("store_meta", target, "f2", "v2")]
+                if script == "store first":
+                    steps = [("store_meta", target, "f2", "v2"), ("store_meta", target, None, "v1"), ("delete_meta", target, "f2"),
+                             ("store_meta", target, "f2", "v2")]
+                for stp in steps:
+                    o = O.run(s2, stp, c)
+                    if o[0] != "ok":
+                        bad = "%s raises %s" % (O.name(stp), o[0])
+                        break
+                if bad is None:
+                    for fmt, doc in ((None, "v1"), ("f2", "v2")):
+                        g = O.run(s2, ("retrieve_meta", target, fmt), c)
+                        if g[0] != "ok" or g[1] != c.docs.data[doc]:
+                            bad = "a document stored after the crash is not returned (%s)" % g[0]
+                if bad is None:
+                    o = O.run(s2, ("delete_meta", target, None), c)
+                    g = [O.run(s2, ("retrieve_meta", target, fmt), c)[0] for fmt in (None, "f2")]
+                    if o[0] != "ok" or any(x == "ok" for x in g):
+                        bad = "delete_metadata(pid) after the crash leaves a document behind"
+                if bad is None:
+                    pr3 = fscen.probe(s2, c, [b for b in fscen.PIDS if b != target])
+                    if any(pr3[b][1:] != ini_probe[b][1:] for b in pr3):
+                        bad = "another pid's documents were disturbed"
+                res["classes"].add((label, "metadata " + script, bad or "ok"))
+                if bad:
+                    viol.append(("metadata recovery (%s): %s" % (script, bad), {}))
         if target is not None and kind in ("store_meta", "delete_meta"):
             for j, f in enumerate(fscen.FORMATS):
                 got = pr[target][1 + j]
